@@ -144,11 +144,12 @@ PLAN = {
         assumptions=["policy worker drained (kept == applied) before each add, so estimates are stable while the oracle reads them"],
     ),
     "C08": dict(
-        stages=[ho("C08", q=60), pairs(), ls("C08"), ga(), tsan("hostile")],
+        stages=[ho("C08", q=60), pairs(), ls("C08"), ga(), dict(engine="close", shards=dict(quick=2, thorough=8), args=["--quick-n", "320", "--thorough-n", "4000"]), tsan("hostile")],
         rule=HO + " || " + LS + " || " + GA + SAN,
         clauses=["every accepted value: exactly one of {resident, on_exit, on_evict, on_reject, overwritten in place}", "none of them only if dropped inside a clear()/close() call",
-                 "never two", "no look-up returns a value after its callback", "no value leaked after the cache and its workers are gone", "lockstep: callback kind matches the cause"],
-        minimum=dict(quick=dict(ho_c08_values_accounted=20000, ho_callbacks=10000, ls_histories=200)),
+                 "never two", "no look-up returns a value after its callback", "no value leaked after the cache and its workers are gone", "lockstep: callback kind matches the cause",
+                 "directed close: values accepted into the insert buffer before close() sent its stop signal (processor parked holding an item) end resident or with exactly one callback - only resident values may be dropped silently by close()"],
+        minimum=dict(quick=dict(ho_c08_values_accounted=20000, ho_callbacks=10000, ls_histories=200, lc_values_buffered_before_the_stop_signal=40, lc_buffered_values_handed_to_a_callback_at_stop=10)),
         assumptions=["collision-free keys; no ValueRefMut::write (drops the replaced value in the caller by design)"],
     ),
     "C09": dict(
